@@ -72,7 +72,7 @@ static J gen_c12 (uint64_t seed, uint64_t idx)
 	if (g.rng.chance (0.5)) { J b = mkop ("setbext") ; b ["fill"] = (int) g.rng.below (3) ; b ["hist"] = (long long) g.rng.pick<int64_t> ({ 0, 1, 2, 100, 255, 256, 257, 1000, 4000, 12000 }) ; b ["stream"] = (long long) g.rng.below (100000) ; if (g.rng.chance (0.4)) b ["cls"] = "crlf" ; b ["version"] = (int) g.rng.pick<int> ({ 0, 1, 2 }) ; sets.push_back (b) ; }
 	if (g.rng.chance (0.4)) { J c = mkop ("setcart") ; c ["fill"] = (int) g.rng.below (3) ; c ["tag"] = (long long) g.rng.pick<int64_t> ({ 0, 1, 3, 100, 255, 256, 1000, 4000, 16000 }) ; c ["stream"] = (long long) g.rng.below (100000) ; sets.push_back (c) ; }
 	if (g.rng.chance (0.4)) { J c = mkop ("setcues") ; c ["count"] = (long long) g.rng.pick<int64_t> ({ 0, 1, 2, 3, 10, 50, 99, 100 }) ; c ["stream"] = (long long) g.rng.below (100000) ; sets.push_back (c) ; }
-	if (g.rng.chance (0.35)) { J c = mkop ("setinstr") ; c ["loops"] = (long long) g.rng.pick<int64_t> ({ 0, 1, 2, 8, 16 }) ; c ["stream"] = (long long) g.rng.below (100000) ; sets.push_back (c) ; }
+	if (g.rng.chance (0.35)) { J c = mkop ("setinstr") ; c ["loops"] = (long long) g.rng.pick<int64_t> ({ 0, 1, 2, 8, 16 }) ; c ["stream"] = (long long) g.rng.below (100000) ; if (GenCtx (sub_seed (seed, "C12x", idx)).rng.chance (0.4)) c ["edge"] = 1 ; sets.push_back (c) ; }
 	if (g.rng.chance (0.35))
 	{	J c = mkop ("setchanmap") ; J codes = J::arr () ;
 		static const int m1 [] = { SF_CHANNEL_MAP_MONO }, m2 [] = { SF_CHANNEL_MAP_LEFT, SF_CHANNEL_MAP_RIGHT },
@@ -493,7 +493,8 @@ static Verdict check_c18 (const J &plan)
 			int T = stype_from (ops [k].gets ("T")) ; int64_t n = ops [k].geti ("n") ;
 			if (r.transcript [0][k].ret != (ops [k].geti ("fr") ? n : n * ch)) return v ;		// write refused: nothing to check
 			for (int64_t i = 0 ; i < n * ch ; i++)
-			{	uint64_t b = gen_bits (key, item + i, T, d, 0) ;
+			{	int lz = std::max (0, lossless_lowzero (*f, T)) ;		// as the executor generates them
+				uint64_t b = gen_bits (key, item + i, T, d, lz) ;
 				double x ;
 				if (T == T_FLOAT) { uint32_t u = (uint32_t) b ; float fl ; memcpy (&fl, &u, 4) ; x = fl ; }
 				else if (T == T_SHORT) x = (double) (int16_t) (uint16_t) b ;
